@@ -638,7 +638,7 @@ fn deliver_token(cx: &mut Ctx, bytes: &[u8], root: PublicKey) {
 }
 
 /// appends `payload` as one more first-party block, signed with the token's own proof secret
-fn byzantine_append(token: &[u8], payload: Vec<u8>, next: KeySpec, sig_version: u32) -> Option<Vec<u8>> {
+pub fn byzantine_append(token: &[u8], payload: Vec<u8>, next: KeySpec, sig_version: u32) -> Option<Vec<u8>> {
     let mut t = schema::Biscuit::decode(token).ok()?;
     let secret = match &t.proof.content {
         Some(schema::proof::Content::NextSecret(s)) => s.clone(),
@@ -661,7 +661,7 @@ fn byzantine_append(token: &[u8], payload: Vec<u8>, next: KeySpec, sig_version: 
     Some(v)
 }
 
-fn legit_block_payload(token: &[u8], i: usize) -> Option<schema::Block> {
+pub fn legit_block_payload(token: &[u8], i: usize) -> Option<schema::Block> {
     let t = schema::Biscuit::decode(token).ok()?;
     let sb = if i == 0 { &t.authority } else { t.blocks.get(i - 1)? };
     schema::Block::decode(&sb.block[..]).ok()
@@ -679,7 +679,7 @@ fn all_symbols(token: &[u8]) -> Vec<String> {
     out
 }
 
-fn encode_block(b: &schema::Block) -> Vec<u8> {
+pub fn encode_block(b: &schema::Block) -> Vec<u8> {
     let mut v = Vec::new();
     let _ = b.encode(&mut v);
     v
